@@ -70,6 +70,11 @@ def cases(ctx):
     for ln in (5, 16, 33):
         for fr in ("bf3", "bec2"):
             yield ("notag", ln, fr)
+    # two files in flight in one process, both created the way the appnotes do (no component list given): the second gets its
+    # configuration BEFORE the first is written - each file must hold its own configuration under its own key
+    for ci in range(4):
+        for fr in ("bf3", "bec2"):
+            yield ("twofiles", ci, fr)
     # histories on ONE live file object: contents and keys change between writes; every write must store the ciphertext of
     # the CURRENT content under the key of THAT write (nothing may be remembered from earlier writes)
     depth = 4 if ctx.quick else 5
@@ -271,6 +276,20 @@ def run_case(ctx, case):
             # the encrypted component FIRST, followed by a plain one (addresses behind a padded ciphertext)
             return check_written(ctx, o, fr, [content], [comp, plain], key, [], "hand-built len=%d zrun=%d %s, encrypted component first" % (ln, z, fr), d)
         return check_written(ctx, o, fr, [content], [plain, comp], key, [], "hand-built len=%d zrun=%d %s" % (ln, z, fr), d)
+    if kind == "twofiles":
+        _, ci, fr = case
+        code, hi, cfgs = configs(ctx)
+        f1, f2 = Bf3File(), Bf3File()
+        f1.set_config(cfgs[ci])
+        blob1 = f1.components[-1].blob
+        f2.set_config(cfgs[(ci + 1) % len(cfgs)])
+        blob2 = f2.components[-1].blob
+        if len(f1.components) != 1 or len(f2.components) != 1 or f1.components[0] is f2.components[0]:
+            return o.viol("twofiles|shared-components", "two files created without a component list share components: %d / %d" % (len(f1.components), len(f2.components)))
+        o1 = check_written(ctx, o, fr, [blob1], f1.components, key_of(ctx, 1), [], "first of two files in flight, %s" % fr)
+        if o1.viols:
+            return o1
+        return check_written(ctx, o, fr, [blob2], f2.components, key_of(ctx, 2), [], "second of two files in flight, %s" % fr)
     if kind == "notag":
         _, ln, fr = case
         key = key_of(ctx, 1)
